@@ -10,6 +10,7 @@ From Coq Require Import List NArith ZArith Bool Lia.
 Import ListNotations.
 From JB Require Import Constants Bytes Utf8 Num Value Codec TreeOps JsonText Dispatch Walk Iter Builder
   CodecProofs WalkProofs RenderWalkProofs ContainWalkProofs EditWalk2 ExtraFuel19.
+From JB Require Import BufSt EditStProofs.
 Open Scope N_scope.
 Set Default Timeout 120.
 
@@ -125,7 +126,7 @@ Qed.
 
 Theorem strip_nulls_b_not_fuel value buf : strip_nulls_b value buf <> Err EFuel.
 Proof.
-  change (nf (strip_nulls_b value buf)). unfold strip_nulls_b.
+  change (nf (strip_nulls_b value buf)). rewrite ?strip_nulls_b_eq.
   assert (Hr : forall p, lenN p + 8 <= lenN value -> nf (strip_item (length value) p)).
   { intros p Lp. apply strip_item_fuel. unfold lenN in Lp. lia. }
   destruct (read_u32 value 0) as [h|]; [|apply nf_other].
@@ -136,7 +137,7 @@ Qed.
 
 Theorem strip_nulls_w_not_fuel : forall bs buf, strip_nulls_w bs buf <> Err EFuel.
 Proof.
-  intros bs buf. unfold strip_nulls_w. destruct (is_jsonb bs) eqn:E; [apply strip_nulls_b_not_fuel|].
+  intros bs buf. rewrite ?strip_nulls_w_eq. destruct (is_jsonb bs) eqn:E; [apply strip_nulls_b_not_fuel|].
   unfold strip_nulls_m. apply append_enc_nf. apply nf_bind; [apply doc_of_text_nf; exact E|]. intros; apply nf_ok.
 Qed.
 Print Assumptions strip_nulls_w_not_fuel.
@@ -205,7 +206,7 @@ Proof. intros fuel item ks H. exact (post_nf _ _ (del_item_post fuel item ks H))
 
 Theorem delete_by_keypath_b_not_fuel value ks buf : delete_by_keypath_b value ks buf <> Err EFuel.
 Proof.
-  change (nf (delete_by_keypath_b value ks buf)). unfold delete_by_keypath_b.
+  change (nf (delete_by_keypath_b value ks buf)). rewrite ?delete_by_keypath_b_eq.
   assert (Hr : forall it kp, (length kp < length ks)%nat -> post (shorter kp) (del_item (length ks) it kp)).
   { intros it kp L. apply del_item_post. exact L. }
   destruct (read_u32 value 0) as [h|]; [|apply nf_other].
@@ -224,7 +225,7 @@ Qed.
 
 Theorem delete_by_keypath_w_not_fuel : forall bs ks buf, delete_by_keypath_w bs ks buf <> Err EFuel.
 Proof.
-  intros bs ks buf. unfold delete_by_keypath_w. destruct (is_jsonb bs) eqn:E; [apply delete_by_keypath_b_not_fuel|].
+  intros bs ks buf. rewrite ?delete_by_keypath_w_eq. destruct (is_jsonb bs) eqn:E; [apply delete_by_keypath_b_not_fuel|].
   unfold delete_by_keypath_m. apply append_enc_nf. apply nf_bind; [apply doc_of_text_nf; exact E|].
   intros v _. apply delete_by_keypath_t_nf.
 Qed.
